@@ -37,6 +37,15 @@ func walletAuthoring(r *evid.Run, dir string, cs int64) {
 	}
 	defer f.Close()
 	f.MinePending()
+	// coins on imported private keys (imported-keys account), one key per scope
+	impScopes := map[waddrmgr.KeyScope]bool{}
+	for _, sc := range wh.FundScopes {
+		if rg.Intn(2) == 0 {
+			if err := f.FundImportedKey(rg, sc, 1+rg.Intn(3)); err == nil {
+				impScopes[sc] = true
+			}
+		}
+	}
 	var log []string
 	fail := func(key, what string) {
 		r.Violation(key, what, "wallet", cs, map[string]any{"requests": log, "what": what})
@@ -49,9 +58,13 @@ func walletAuthoring(r *evid.Run, dir string, cs int64) {
 	for n := 0; n < 40; n++ {
 		sc := wh.FundScopes[rg.Intn(len(wh.FundScopes))]
 		rate := btcutil.Amount([]int{1000, 2000, 5000, 20000}[rg.Intn(4)])
+		acct := uint32(0)
+		if impScopes[sc] && rg.Intn(3) == 0 {
+			acct = waddrmgr.ImportedAddrAccount // spend the coins of the imported key
+		}
 		var elig []*wh.Coin
 		for _, c := range f.SortedCoins() {
-			if f.Ineligible(c, &sc, 0, 1) == "" {
+			if f.Ineligible(c, &sc, acct, 1) == "" {
 				elig = append(elig, c)
 			}
 		}
@@ -85,8 +98,11 @@ func walletAuthoring(r *evid.Run, dir string, cs int64) {
 		for i, o := range outs {
 			want[i] = wire.TxOut{Value: o.Value, PkScript: append([]byte(nil), o.PkScript...)}
 		}
-		atx, err := f.W.CreateSimpleTx(&sc, 0, outs, 1, rate, wallet.CoinSelectionLargest, false)
-		desc := fmt.Sprintf("CreateSimpleTx scope=%v amount=%d in %d outputs rate=%d (placed on the %d largest of %d eligible coins: %v)", sc, amt, nout, rate, k, len(elig), placed)
+		atx, err := f.W.CreateSimpleTx(&sc, acct, outs, 1, rate, wallet.CoinSelectionLargest, false)
+		if acct == waddrmgr.ImportedAddrAccount && err == nil {
+			r.Hit("wallet-authored-from-the-imported-keys-account", 1)
+		}
+		desc := fmt.Sprintf("CreateSimpleTx scope=%v account=%d amount=%d in %d outputs rate=%d (placed on the %d largest of %d eligible coins: %v)", sc, acct, amt, nout, rate, k, len(elig), placed)
 		if err != nil {
 			log = append(log, desc+" -> "+err.Error())
 			r.Hit("wallet-authoring-refused", 1)
